@@ -20,12 +20,23 @@
 //	        (close)          call Close() (in its own goroutine)
 //	        (await-done)     wait until the batching loop has posted its done token (hook snapshot) or Close returned
 //	        (sleep us)
+//	        (hold)           take the FIFO buffer's lock: the batching loop stalls in its next Push, the writing loop in its
+//	                         next PopMultiple (only with the writing loop parked in a write call or idle with all written)
+//	        (unhold)         give the lock back
+//	        (await-blocked)  (while held) wait until the pipeline is at rest — every producer goroutine still running sits in
+//	                         the channel send of WriteEventWithTimestamp, the batching loop waits in Push or in the receive —
+//	                         and record a snapshot
+//	optional fourth element (cap N): build the writer with a hand-over channel of N slots (needs the hook method
+//	(*KafkaWriter).VerifNewWithCap of common/event/verif_hooks_cap.go; without it the case is inconclusive)
 //	        A run always ends with: join, close (if not yet called), release everything, wait for Close.
 //	(storm N) N fresh writers, nothing published, Close at a jittered instant right after construction.
 //
 // Obs    : ((accepted a0 a1 …) (batches ((p seq key)…)…) (close returned|hung) (left chan buf) (inflight n))
 //
 //	        | (storm N ok a hung b)
+//	        with hold ops or (cap N) a sixth element (snaps (snap (acc a0 a1 …) (chan n) (hand h) (buf n) (written n) (blocked p…))…):
+//	        per snapshot the WriteEvent calls that have RETURNED per producer, len(channel), whether the batching loop has a
+//	        message in its hand, the buffer's length, events handed to the write function so far, producers waiting in the send
 //	batches in write-call order as handed to the write function; key coded 0 = none, n = "e<n>",
 //	1000+m = "t<m>"; left = what the hook snapshot shows after Close ended; inflight = write calls
 //	still running when Close returned. `hung` is reported ONLY when the goroutine dump proves it: the
@@ -115,6 +126,7 @@ type runner struct {
 	nWritten int
 	calls    int
 	inflight int
+	parkedNow int // write calls sitting in their park right now
 	parkAt   map[int]bool
 	parkedCh chan int
 	release  chan struct{}
@@ -143,8 +155,14 @@ func (r *runner) write(_ context.Context, msgs ...kafka.Message) error {
 	park := r.parkAt[idx]
 	r.mu.Unlock()
 	if park && !r.freeAll.Load() {
+		r.mu.Lock()
+		r.parkedNow++
+		r.mu.Unlock()
 		r.parkedCh <- idx
 		<-r.release
+		r.mu.Lock()
+		r.parkedNow--
+		r.mu.Unlock()
 	}
 	if d := r.latNs.Load(); d > 0 {
 		t0 := time.Now()
@@ -292,7 +310,41 @@ func runImpl(input string) (string, error) {
 	for _, k := range in.At(1).List[1:] {
 		r.parkAt[k.Int()] = true
 	}
-	r.w = event.NewWriterForVerif("verif", r.write)
+	// optional fourth element (cap N): the capacity-parameterised constructor of the tree under test
+	capN := 0
+	if in.Len() >= 4 && in.At(3).At(0).Str() == "cap" {
+		capN = in.At(3).At(1).Int()
+		if capN < 1 {
+			return "", fmt.Errorf("bad input: capacity %d", capN)
+		}
+	}
+	usesHold := capN > 0
+	for _, op := range in.At(2).List[1:] {
+		if n := op.At(0).Str(); n == "hold" || n == "await-blocked" || n == "unhold" {
+			usesHold = true
+		}
+	}
+	if capN > 0 {
+		ctor := capCtor()
+		if ctor == nil {
+			return "", fmt.Errorf("the tree under test has no (*KafkaWriter).VerifNewWithCap (common/event/verif_hooks_cap.go)")
+		}
+		r.w = ctor("verif", r.write, capN)
+	} else {
+		r.w = event.NewWriterForVerif("verif", r.write)
+	}
+	hs := &holdState{tags: map[int]uintptr{}}
+	if usesHold {
+		g, err := gutsOf(r.w)
+		if err == nil && capN > 0 && g.ch.Cap() != capN {
+			err = fmt.Errorf("VerifNewWithCap(%d) built a channel of capacity %d", capN, g.ch.Cap())
+		}
+		if err != nil {
+			go r.w.Close()
+			return "", err
+		}
+		hs.g = g
+	}
 	accepted := make([]atomic.Int64, len(prods))
 	busy := make([]atomic.Bool, len(prods))
 	var wg sync.WaitGroup
@@ -347,6 +399,7 @@ func runImpl(input string) (string, error) {
 	}
 	// on any infrastructure error: unblock everything so that nothing of this case lingers
 	bail := func(e error) (string, error) {
+		hs.unhold()
 		r.freeAll.Store(true)
 		for {
 			select {
@@ -369,14 +422,55 @@ func runImpl(input string) (string, error) {
 				return bail(fmt.Errorf("bad script: producer %d used concurrently", p))
 			}
 			if op.At(0).Str() == "pub" {
+				if hs.held {
+					return bail(fmt.Errorf("bad script: synchronous pub while the batching loop is held"))
+				}
 				publish(p, n, 0)
 			} else {
 				busy[p].Store(true)
 				wg.Add(1)
 				gap := op.At(3).Int()
-				go func() { defer wg.Done(); publish(p, n, gap); busy[p].Store(false) }()
+				// registered before the goroutine exists: a snapshot must wait for it to block or finish
+				tag := newTag()
+				hs.setTag(p, tag)
+				go func() {
+					defer wg.Done()
+					publishLoop(tag, func() { publish(p, n, gap) })
+					hs.setTag(p, 0)
+					busy[p].Store(false)
+				}()
+			}
+		case "hold":
+			// only with the writing loop out of the way (inside a parked write call, or idle with everything
+			// written): a batch popped but not yet handed to the write function would be invisible
+			r.mu.Lock()
+			quiet := r.parkedNow > 0 || r.nWritten == total()
+			r.mu.Unlock()
+			for i := range busy {
+				if busy[i].Load() {
+					quiet = false
+				}
+			}
+			if hs.g == nil || hs.held || !quiet {
+				return bail(fmt.Errorf("bad script: hold (held=%v, writing loop quiet=%v)", hs.held, quiet))
+			}
+			hs.hold()
+		case "unhold":
+			if !hs.held {
+				return bail(fmt.Errorf("bad script: unhold without hold"))
+			}
+			hs.unhold()
+		case "await-blocked":
+			if !hs.held || closeCalled {
+				return bail(fmt.Errorf("bad script: await-blocked needs the batching loop held and the writer open"))
+			}
+			if err := hs.snapshot(r.w, accepted, func() int { r.mu.Lock(); defer r.mu.Unlock(); return r.nWritten }); err != nil {
+				return bail(err)
 			}
 		case "join":
+			if hs.held {
+				return bail(fmt.Errorf("bad script: join while the batching loop is held"))
+			}
 			if err := joinAll(); err != nil {
 				return bail(err)
 			}
@@ -397,6 +491,9 @@ func runImpl(input string) (string, error) {
 				return bail(fmt.Errorf("nothing to release within %v", ceiling))
 			}
 		case "await-written":
+			if hs.held {
+				return bail(fmt.Errorf("bad script: await-written while the batching loop is held"))
+			}
 			if err := joinAll(); err != nil {
 				return bail(err)
 			}
@@ -405,6 +502,9 @@ func runImpl(input string) (string, error) {
 				return bail(err)
 			}
 		case "close":
+			if hs.held {
+				return bail(fmt.Errorf("bad script: close while the batching loop is held"))
+			}
 			if err := joinAll(); err != nil {
 				return bail(err)
 			}
@@ -422,6 +522,7 @@ func runImpl(input string) (string, error) {
 			return bail(fmt.Errorf("bad script op %s", op))
 		}
 	}
+	hs.unhold()
 	if err := joinAll(); err != nil {
 		return bail(err)
 	}
@@ -467,8 +568,12 @@ func runImpl(input string) (string, error) {
 	if status == "returned" {
 		infl = inflightAtReturn
 	}
-	return sx.L(acc, bs, sx.L(sx.A("close"), sx.A(status)), sx.L(sx.A("left"), sx.I(cl), sx.I(bl)),
-		sx.L(sx.A("inflight"), sx.I(infl))).String(), nil
+	obs := sx.L(acc, bs, sx.L(sx.A("close"), sx.A(status)), sx.L(sx.A("left"), sx.I(cl), sx.I(bl)),
+		sx.L(sx.A("inflight"), sx.I(infl)))
+	if usesHold {
+		obs.Add(sx.L(append([]*sx.Node{sx.A("snaps")}, hs.snaps...)...))
+	}
+	return obs.String(), nil
 }
 
 // ---- generator -------------------------------------------------------------------
@@ -648,6 +753,8 @@ func generate(tier string, r *rng.R) []fw.Case {
 	for i := 0; i < nStorm; i++ {
 		cs = append(cs, fw.Case{Input: sx.L(sx.A("storm"), sx.I(stormN+i)).String(), Tags: []string{"storm:close-right-after-construction"}})
 	}
+	// (last, so that the cases above stay what they were for a given seed)
+	cs = append(cs, genFullCases(tier, r.Fork())...)
 	return cs
 }
 
@@ -689,12 +796,12 @@ func shrinkCands(input string) []string {
 			s2 := sx.L()
 			s2.List = append([]*sx.Node{}, script.List...)
 			s2.List[i] = n2
-			out = append(out, sx.L(in.At(0), in.At(1), s2).String())
+			out = append(out, sx.L(append([]*sx.Node{in.At(0), in.At(1), s2}, in.List[3:]...)...).String())
 		}
 		if name == "sleep" || name == "lat" || name == "spawn" || name == "pub" {
 			s2 := sx.L()
 			s2.List = append(append([]*sx.Node{}, script.List[:i]...), script.List[i+1:]...)
-			out = append(out, sx.L(in.At(0), in.At(1), s2).String())
+			out = append(out, sx.L(append([]*sx.Node{in.At(0), in.At(1), s2}, in.List[3:]...)...).String())
 		}
 	}
 	return out
@@ -710,13 +817,17 @@ func init() {
 			"replays of the model schedule 'n published, first write parked, Close, batching loop done, release' (1..3 producers, up to 1500 events each), " +
 			"quiescent closes, floods of 3000..18000 events while the broker call is stuck (channel capacity 10000), random scripts (1..6 producers of all nine payload " +
 			"types sharing 1..3 environments, bursts of 1..600 events with spin gaps, write latencies 0..1 ms, parked writes, Close right after the last accept / " +
-			"after a delay / when all is written / while the broker is stuck), and storms of fresh writers closed right after construction; " +
+			"after a delay / when all is written / while the broker is stuck), storms of fresh writers closed right after construction, " +
+			"and 'channel full' scenarios: the batching loop is held up in front of the FIFO's lock (fresh writer / after everything was written / first write parked), " +
+			"1..3 producers publish more than channel + hand can take (the real 10000 slots; 1..8 slots when the tree has the capacity hook), the pipeline is observed at rest " +
+			"(calls returned per producer, channel, hand, buffer, written, who waits in the send — by goroutine dump), then let go, drained and closed; " +
 			"non-trivial = at least two events accepted and at least one batch written (storm: >= 100 writers); distinct by input text",
 		Shrink:  shrinkCands,
 		Workers: 4,
 		TrustedBase: []string{
 			"harness/props/c19 (script executor, recording write function, decoding of TimestampNano tags, goroutine-dump deadlock proof)",
 			"hook common/event/verif_hooks.go (NewWriterForVerif builds the struct NewWriterWithTopic builds with the broker call replaced; VerifSnapshot is read-only)",
+			"'channel full' scenarios: reflection on the unexported fields toBatchMessagesChan (len/cap), messageBuffer.cond.L (the FIFO's own lock, taken and released to hold the batching loop up) and messageBuffer.buffer (len, under that lock); goroutine dumps to see who waits where; optional hook method (*KafkaWriter).VerifNewWithCap (common/event/verif_hooks_cap.go: NewWriterForVerif with the channel capacity as a parameter)",
 			"Go runtime semantics of channels, sync.Cond, sync.WaitGroup as modelled (no spurious wake-ups, Signal/Broadcast not remembered)",
 		},
 		Assumptions: []string{
